@@ -517,9 +517,8 @@ Theo::MacroApplicationResult Theo::apply_macros(
                                      return true;
                                    if (p2.second.location < p1.second.location)
                                      return false;
-                                   if (p1.second.length > p2.second.length)
-                                     return true;
-                                   return p2.second.length > p1.second.length;
+                                   // same start: the longer match is smaller
+                                   return p1.second.length > p2.second.length;
                                  });
       if (it != detected_macros.end()) {
         changed = true;
